@@ -518,6 +518,13 @@ impl<CE: aranya_crypto::Engine> Policy for VmPolicy<CE> {
             PolicyError::Read
         })?;
 
+        // The command kind comes from the peer: look it up before anything
+        // that assumes it is defined.
+        let def = self.machine.command_defs.get(&kind).ok_or_else(|| {
+            error!("unknown command {kind}");
+            PolicyError::InternalError
+        })?;
+
         let expected_priority = self.get_command_priority(&kind).into();
         if command.priority() != expected_priority {
             // The command's declared priority comes from the peer, so a
@@ -529,11 +536,6 @@ impl<CE: aranya_crypto::Engine> Policy for VmPolicy<CE> {
             );
             return Err(PolicyError::InternalError);
         }
-
-        let def = self.machine.command_defs.get(&kind).ok_or_else(|| {
-            error!("unknown command {kind}");
-            PolicyError::InternalError
-        })?;
 
         let envelope = Envelope {
             parent_id,
